@@ -1,9 +1,9 @@
 import NflowsModel.Core.Basic
 /-!
 # Core/TorchUtils — executable model of `nflows/utils/torchutils.py` and `nflows/utils/typechecks.py`
-(Mathlib-free; linked into the driver).  Models the code as it is in `/repo` now (after the two
-`fix: searchsorted …` commits), including its error behaviour and two behaviours that contradict the
-documentation (see `sumExceptBatch` and the note at `kdeLogEval`).
+(Mathlib-free; linked into the driver).  Models the code as it is in `/repo` now (after the `fix:` commits
+6ce8c16 / 25877ca searchsorted, a69477f sum_except_batch, 8b73dff merge_leading_dims, 3e70b12 KDE dtype), including
+its error behaviour.
 
 A tensor is `(shape, flat row-major data)`: that is what `torch.reshape` preserves, so every reshape of
 the code is the identity on `data` and a (checked) change of `shape`.
@@ -100,44 +100,44 @@ def tile (x : T α) (n : PyVal) : Except Err (T α) :=
     | .int k => .ok ⟨[x.data.length * k.toNat], tileL x.data k.toNat⟩
     | _ => .error .typeError                                 -- `x_.repeat(True)`: torch rejects a bool repeat count (TypeError)
 
-/-- torchutils.py:33-42 `merge_leading_dims(x, num_dims)` -/
+/-- torchutils.py:36-47 `merge_leading_dims(x, num_dims)` (after commit 8b73dff: the merged size is computed explicitly,
+    `int(np.prod(x.shape[:num_dims]))`, so no `-1` has to be inferred) -/
 def mergeLeading (x : T α) (k : PyVal) : Except Err (T α) :=
-  if !isPositiveInt k then .error .typeError                 -- :35-36
-  else if natOf k > x.shape.length then .error .valueError   -- :37-40
-  else reshape x ((-1 : Int) :: (x.shape.drop (natOf k)).map Int.ofNat)   -- :41-42
+  if !isPositiveInt k then .error .typeError                 -- :38-39
+  else if natOf k > x.shape.length then .error .valueError   -- :40-43
+  else reshape x ((prodL (x.shape.take (natOf k)) :: x.shape.drop (natOf k)).map Int.ofNat)   -- :45-47
 
-/-- torchutils.py:27-30 `split_leading_dim(x, shape)` -/
+/-- torchutils.py:30-33 `split_leading_dim(x, shape)` -/
 def splitLeading (x : T α) (sh : List Int) : Except Err (T α) :=
   reshape x (sh ++ (x.shape.drop 1).map Int.ofNat)
 
 /-- rows of a tensor whose first dimension is `s0` (the rest flattened) -/
 def rowsOf (s0 : Nat) (rest : List Nat) (d : List α) : List (List α) := chunkRows s0 (prodL rest) d
 
-/-- torchutils.py:45-52 `repeat_rows(x, num_reps)`: unsqueeze(1) · expand(s0, n, *rest) · merge_leading_dims(2) -/
+/-- torchutils.py:51-58 `repeat_rows(x, num_reps)`: unsqueeze(1) · expand(s0, n, *rest) · merge_leading_dims(2) -/
 def repeatRows (x : T α) (n : PyVal) : Except Err (T α) :=
-  if !isPositiveInt n then .error .typeError                 -- :47-48
+  if !isPositiveInt n then .error .typeError                 -- :53-54
   else match x.shape with
     | [] => .error .indexError                               -- `x.unsqueeze(1)` of a 0-dim tensor
     | s0 :: rest =>
       let ex := (rowsOf s0 rest x.data).map (fun row => List.replicate (natOf n) row)   -- [s0, n] blocks
       mergeLeading ⟨s0 :: natOf n :: rest, ex.flatten.flatten⟩ (.int 2)
 
-/-- torchutils.py:19-24 `sum_except_batch(x, num_batch_dims)`.
-    NOTE (code as it is): `reduce_dims = list(range(k, ndim))` is EMPTY when `k ≥ ndim`, and
-    `torch.sum(x, dim=[])` reduces over ALL dimensions, so the batch is then summed away. -/
+/-- torchutils.py:19-27 `sum_except_batch(x, num_batch_dims)` (after commit a69477f: when `reduce_dims` is empty, i.e.
+    `num_batch_dims ≥ ndim`, `x` itself is returned instead of `torch.sum(x, dim=[])`, which would reduce everything). -/
 def sumExceptBatch (x : T Int) (k : PyVal) : Except Err (T Int) :=
   if !isNonnegInt k then .error .typeError                   -- :21-22
   else
     let reduceDims := List.range' (natOf k) (x.shape.length - natOf k)   -- :23
-    if reduceDims.isEmpty then .ok ⟨[], [x.data.sum]⟩         -- torch.sum(x, dim=[]) = full reduction
+    if reduceDims.isEmpty then .ok x                          -- :24-26 nothing but batch dimensions
     else
       let b := prodL (x.shape.take (natOf k))
       let r := prodL (x.shape.drop (natOf k))
-      .ok ⟨x.shape.take (natOf k), (chunkRows b r x.data).map List.sum⟩
+      .ok ⟨x.shape.take (natOf k), (chunkRows b r x.data).map List.sum⟩   -- :27
 
-/-! ## searchsorted with an explicit argument buffer (torchutils.py:134-142) -/
+/-! ## searchsorted with an explicit argument buffer (torchutils.py:139-147) -/
 
-/-- the value written to the last bin edge (:139-141) -/
+/-- the value written to the last bin edge (:144-146) -/
 def bumpedLast (o : XOps α) (eps : Float) (l : α) : α := o.maxA (o.add l (o.ofFloat eps)) (o.nextUp l)
 
 /-- outcome of one call: the returned indices and the caller's `bin_locations` buffer afterwards -/
@@ -145,8 +145,8 @@ structure SearchOut (α : Type) where
   result : Int
   callerAfter : List α
 
-/-- `searchsorted` as a two-buffer program.  `doClone = true` is the code in `/repo` (:135 `bin_locations.clone()`):
-    the write of :139 goes to the private copy.  `doClone = false` is the code before commit 6ce8c16 (F12): the
+/-- `searchsorted` as a two-buffer program.  `doClone = true` is the code in `/repo` (:140 `bin_locations.clone()`):
+    the write of :144 goes to the private copy.  `doClone = false` is the code before commit 6ce8c16 (F12): the
     write goes to the caller's tensor. -/
 def searchsortedM (o : XOps α) (doClone : Bool) (eps : Float) (locs : List α) (x : α) : SearchOut α :=
   let written := match locs.reverse with
@@ -160,29 +160,29 @@ def searchsorted (o : XOps α) (eps : Float) (locs : List α) (x : α) : SearchO
 
 /-! ## cbrt, get_temperature -/
 
-/-- torchutils.py:145-147 `sign(x) * exp(log(abs(x)) / 3.0)` -/
+/-- torchutils.py:150-152 `sign(x) * exp(log(abs(x)) / 3.0)` -/
 def cbrtG (o : XOps α) (x : α) : α := o.mul (o.sign x) (o.exp (o.div (o.log (o.abs x)) (o.ofRat 3 1)))
 
-/-- torchutils.py:150-165.  `min(t, 1)` is Python's builtin: it returns the int `1` iff `1 < t`, else the tensor `t`.
+/-- torchutils.py:155-170.  `min(t, 1)` is Python's builtin: it returns the int `1` iff `1 < t`, else the tensor `t`.
     Result: (is a tensor, value). -/
 def getTemperature (o : XOps α) (maxv bound : α) : Bool × α :=
   let t := o.mul (o.neg (o.div o.one maxv)) (o.sub (o.log1p (o.neg bound)) (o.log bound))
   if o.lt o.one t then (false, o.one) else (true, t)
 
-/-! ## masks (torchutils.py:89-131) as lists of 0/1 -/
+/-! ## masks (torchutils.py:94-136) as lists of 0/1 -/
 
-/-- :111 / :126 -/
+/-- :116 / :131 -/
 def midpoint (n : Nat) : Nat := if n % 2 == 0 then n / 2 else n / 2 + 1
 
-/-- :97-100 `mask[start::2] += 1` -/
+/-- :102-105 `mask[start::2] += 1` -/
 def alternatingMask (n : Nat) (even : Bool) : List Nat :=
   let start := if even then 0 else 1
   (List.range n).map (fun i => if start ≤ i && (i - start) % 2 == 0 then 1 else 0)
 
-/-- :110-113 `mask[:midpoint] += 1` -/
+/-- :115-118 `mask[:midpoint] += 1` -/
 def midSplitMask (n : Nat) : List Nat := (List.range n).map (fun i => if i < midpoint n then 1 else 0)
 
-/-- :124-131 `mask[indices] += 1` for the drawn `indices` (index_put without accumulation) -/
+/-- :129-136 `mask[indices] += 1` for the drawn `indices` (index_put without accumulation) -/
 def randomMaskOf (n : Nat) (idxs : List Nat) : List Nat := (List.range n).map (fun i => if idxs.contains i then 1 else 0)
 
 /-- features as a Python int: negative → `torch.zeros` raises; 0 → `torch.multinomial` raises for the random mask -/
@@ -196,7 +196,7 @@ def maskOp (kind : String) (features : Int) (even : Bool) : Except Err (List Nat
 def randomMaskCount (features : Int) : Except Err Nat :=
   if features ≤ 0 then .error .runtime else .ok (midpoint features.toNat)
 
-/-! ## logabsdet (torchutils.py:59-63): `slogdet` by specification — exact integer determinant, then `log |det|` -/
+/-! ## logabsdet (torchutils.py:64-68): `slogdet` by specification — exact integer determinant, then `log |det|` -/
 
 def removeAt (l : List α) (j : Nat) : List α := l.take j ++ l.drop (j + 1)
 
@@ -212,17 +212,17 @@ def detL : (n : Nat) → List (List Int) → Int
 
 def logabsdetF (n : Nat) (m : List (List Int)) : Float := Float.log (Float.ofInt (detL n m).natAbs)
 
-/-! ## gaussian_kde_log_eval (torchutils.py:168-177), element type generic.
-    `std`, `dconst` are the Python-side doubles of :170 and :175.  (The code builds `torch.eye(D)` in the default dtype:
-    with float64 inputs the matmul of :173 raises — the harness observes that; the model covers the float32 path.) -/
+/-! ## gaussian_kde_log_eval (torchutils.py:173-182), element type generic (after commit 3e70b12 `torch.eye(D)` has the
+    dtype of the samples, so the same formula runs in float32 and float64).
+    `std`, `dconst` are the Python-side doubles of :175 and :180. -/
 def kdeLogEval (o : XOps α) (std dconst : Float) (samples : List (List α)) (q : List α) : α :=
-  let p := o.ofFloat (1.0 / (std * std))                                  -- :171 diagonal of `precision`
+  let p := o.ofFloat (1.0 / (std * std))                                  -- :176 diagonal of `precision`
   let cs := samples.map (fun s =>
-    let a := List.zipWith o.sub q s                                       -- :172
-    let b := a.map (fun v => o.mul v p)                                   -- :173 (diagonal matmul)
-    let c := o.mul (o.ofFloat (-0.5)) (sumG o (List.zipWith o.mul a b))   -- :174
-    o.add c (o.ofFloat dconst))                                           -- :176
+    let a := List.zipWith o.sub q s                                       -- :177
+    let b := a.map (fun v => o.mul v p)                                   -- :178 (diagonal matmul)
+    let c := o.mul (o.ofFloat (-0.5)) (sumG o (List.zipWith o.mul a b))   -- :179
+    o.add c (o.ofFloat dconst))                                           -- :181
   let m := maxG o cs
-  o.add m (o.log (sumG o (cs.map (fun c => o.exp (o.sub c m)))))          -- :177 logsumexp
+  o.add m (o.log (sumG o (cs.map (fun c => o.exp (o.sub c m)))))          -- :182 logsumexp
 
 end NF.TU
